@@ -12,6 +12,7 @@ import (
 
 type Clause struct {
 	Label string
+	Assumed bool // `assumes`: taken on trust (used at call sites, not an obligation of the function); listed in the trusted base
 	E     *Expr
 	Src   string
 	Where string // file:line
@@ -284,11 +285,12 @@ func (C *Contracts) loadContractFile(path string, defaultPkg string) error {
 				return err
 			}
 			cur.Requires = append(cur.Requires, c)
-		case "ensures", "assume":
+		case "ensures", "assume", "assumes":
 			c, err := parseClause(rest, L.line)
 			if err != nil {
 				return err
 			}
+			c.Assumed = word == "assumes"
 			cur.Ensures = append(cur.Ensures, c)
 		case "modifies":
 			if strings.TrimSpace(rest) == "*" {
